@@ -20,7 +20,7 @@ func Map(v reflect.Value, f jtypes.Callable) (interface{}, error) {
 	// which encodes as the JSON value null).
 	results := []interface{}{}
 
-	argc := clamp(f.ParamCount(), 1, 3)
+	argc := clamp(f.ParamCount(), 0, 3)
 
 	for i := 0; i < arrayLen(v); i++ {
 
@@ -47,7 +47,7 @@ func Filter(v reflect.Value, f jtypes.Callable) (interface{}, error) {
 	// which encodes as the JSON value null).
 	results := []interface{}{}
 
-	argc := clamp(f.ParamCount(), 1, 3)
+	argc := clamp(f.ParamCount(), 0, 3)
 
 	for i := 0; i < arrayLen(v); i++ {
 
